@@ -264,9 +264,11 @@ QUICK_DENY = [
     r"groestl_core::c07_leaf_round512$", r"groestl_core::c07_lemma_submix1024$",      # ~15 min each: AES model with a symbolic S-box
     r"jh_core::wiring::c06_f8_wiring_",                                                 # ~10 min each
     r"blake_core::c04_lemma_round64$", r"blake_core::wiring::c04_put_block512_l[0-3]$",
-    r"skein_mode::quick::c05_skein1024_(1|32|64|200)_", r"skein_ubi::c05_process_block1024",
+    r"skein_mode::quick::c05_skein1024_(1|32|64|129|200)_", r"skein_ubi::c05_process_block1024",
     r"tf1024::c09_encrypt_wiring$", r"tf1024::c10_decrypt_wiring$",                     # the Verus route covers the 1024-bit cores in quick
 ]
+# harnesses known to be slow are started first (longest-first scheduling shortens the critical path)
+SLOW_FIRST = [r"skein1024", r"jh_e8::", r"iv_contract", r"groestl_core::", r"1024", r"blake_core::wiring", r"512", r"refill4", r"n(320|321|319|257|258)$"]
 QUICK_ONLY = {
     "C08": {"hashes": r"_(default_reset|clone_p\d+_n\d+|update_p0_n(32|33|64|65|128|129)|update_p(31|32|63|64|127|128)_n1)$"},
     "C17": {"hashes": r"(blake\d+|groestl\d+|jh\d+|skein(256_32|512_64|1024_128))_(finalize_p(0|31|32|63|64|127|128)|update_p0_n(32|64|128))$"},
